@@ -7,6 +7,7 @@ import (
 	"sort"
 	"strings"
 	"testing/synctest"
+	"time"
 
 	"github.com/sourcenetwork/corekv"
 
@@ -65,6 +66,16 @@ func genC20(seed int64, tier string) *Plan {
 			}
 		}
 		p.Steps = steps
+	}
+	// a burst of commits while one bus subscriber does not read, which then unsubscribes (own stream of
+	// choices): its full buffer must not keep the events from the others
+	if rb := newRng(seed, 204); chance(rb, 10) && len(p.Steps) > 1 {
+		at := rb.IntN(len(p.Steps))
+		for at < len(p.Steps) && at > 0 && p.Steps[at-1].K == "fault" {
+			at++
+		}
+		st := Step{K: "burst", A: 105 + rb.IntN(40)}
+		p.Steps = append(p.Steps[:at:at], append([]Step{st}, p.Steps[at:]...)...)
 	}
 	// a subscriber that leaves before step leaveat-1 (own stream of choices)
 	if rl := newRng(seed, 201); chance(rl, 50) && len(p.Steps) > 2 {
@@ -232,6 +243,44 @@ func runC20(p *Plan, res *Result) {
 		what := ""
 		midTxnEvents := 0
 		switch s.K {
+		case "burst":
+			what = "burst-with-slow-subscriber"
+			func() {
+				slow, err := n.DB.Events().Subscribe(event.UpdateName)
+				if err != nil {
+					callErr = err
+					return
+				}
+				var items []string
+				for k := 0; k < s.A; k++ {
+					items = append(items, fmt.Sprintf(`{name: "burst%d_%d", age: %d}`, i, k, 1000*(i+1)+k))
+				}
+				_, errs := n.GQL("mutation { create_User(input: [" + strings.Join(items, ", ") + "]) { _docID } }")
+				if len(errs) > 0 {
+					callErr = fmt.Errorf("%v", errs)
+				}
+				synctest.Wait()
+				// the subscriber that never read gives up
+				n.DB.Events().Unsubscribe(slow)
+				synctest.Wait()
+				res.Stats["bursts_with_a_slow_subscriber"]++
+				// is the bus still alive? a message of its own kind must reach a fresh subscriber
+				probe, err := n.DB.Events().Subscribe("verif-probe")
+				if err != nil {
+					callErr = err
+					return
+				}
+				n.DB.Events().Publish(event.NewMessage("verif-probe", nil))
+				select {
+				case <-probe.Message():
+					n.DB.Events().Unsubscribe(probe)
+				case <-time.After(10 * time.Minute):
+					res.violate("C20", "bus-blocked", "bus-blocked/after-slow-subscriber-left", i,
+						"after %d commits in one request a subscriber that had not read its events unsubscribed: 10 minutes later the bus has not delivered a fresh message to a fresh subscriber (the other subscribers have received %d of the events)",
+						s.A, len(n.updates))
+					w.abandoned = true
+				}
+			}()
 		case "pet":
 			what = "other-collection-write"
 			var q string
